@@ -171,12 +171,20 @@ def gen_spec(seed, index, tier):
     ops = rng.sub("ops")
     steps = []
     for qi in range(ops.randint(1, 3)):
-        op = ops.weighted([("ball", 5), ("radius", 2), ("set_radius", 2)])
+        op = ops.weighted([("ball", 5), ("radius", 2), ("set_radius", 2), ("set_radius_bad", 1),
+                           ("refused_rescale", 1)])
         st = {"op": op, "pyseed": ops.u32(), "npseed": ops.u32(),
               "solver_script": _script(ops, "first_k" if (qi == 0 and k0) else
                                        ("none" if (qi == 0 and k0 == 0) else None), k0)}
         if op == "set_radius":
             st["factor"] = 10 ** ops.uniform(-1, 1)
+        if op in ("set_radius_bad", "refused_rescale"):
+            st["bad"] = ops.choice(["zero", "negative", "nan"])
+            st["solver_script"] = []
+        if op == "ball":
+            # hostile caller: scribble on the returned ball afterwards (it must be the
+            # caller's own object, not state the next query depends on)
+            st["scribble"] = ops.chance(0.3)
         steps.append(st)
     steps.append({"op": "ball", "pyseed": ops.u32(), "npseed": ops.u32(), "solver_script": [],
                   "progress": True})
@@ -186,8 +194,9 @@ def gen_spec(seed, index, tier):
 def sample(spec):
     return {"base": {k: spec["base"].get(k) for k in ("cls", "family")},
             "n_vertices": len(spec["base"]["vertices"]),
-            "steps": [{k: s[k] for k in ("op", "solver_script", "factor", "pyseed", "npseed",
-                                         "progress") if k in s} for s in spec["steps"]]}
+            "steps": [{k: s[k] for k in ("op", "solver_script", "factor", "bad", "scribble",
+                                         "pyseed", "npseed", "progress") if k in s}
+                      for s in spec["steps"]]}
 
 
 # --------------------------------------------------------------------------
@@ -291,6 +300,14 @@ def execute(spec, world):
                     out = getattr(shape, ball_name)
                 elif op == "radius":
                     out = getattr(shape, rad_name)
+                elif op in ("set_radius_bad", "refused_rescale"):
+                    bad = {"zero": 0.0, "negative": -1.5, "nan": float("nan")}[st["bad"]]
+                    if op == "set_radius_bad":
+                        setattr(shape, rad_name, bad)
+                    else:
+                        # any size setter of the class ends in the same _rescale
+                        prop = "volume" if hasattr(type(shape), "volume") else "area"
+                        setattr(shape, prop, bad)
                 else:
                     target = None
                     # the target is relative to the true current radius, which the harness
@@ -319,6 +336,18 @@ def execute(spec, world):
                 [a["outcome"] for a in attempts])
         Vafter = np.array(shape.vertices, copy=True)
 
+        if op in ("set_radius_bad", "refused_rescale"):
+            # an invalid target: whether it is refused is C08's question; here only what the
+            # next queries return matters - and a refusal must not have touched the shape
+            C["invalid_target_" + ("refused" if exc is not None else "accepted")] += 1
+            if exc is not None and not np.array_equal(V, Vafter):
+                res["violations"].append(violation(
+                    PROP, "failed-op-changed-shape", "vertices differ after %s raised %s" % (
+                        op, type(exc).__name__), si, cls=cls, op=op))
+                break
+            if exc is None and not np.all(np.isfinite(Vafter)):
+                break  # accepted and destroyed: nothing left to query (C08 territory)
+            continue
         if exc is not None:
             if isinstance(exc, RuntimeError) and "nable to solve" in str(exc):
                 C["unsolvable_raised"] += 1
@@ -356,6 +385,13 @@ def execute(spec, world):
                     cls=cls, what="not-a-ball"))
                 continue
             judge_ball(res, world, shape, V, center, radius, si, cls, normal, op)
+            if st.get("scribble"):
+                try:
+                    out.radius = float(out.radius) * 1.25
+                    out.centroid = np.asarray(out.centroid, float) + 0.37 * float(radius)
+                    C["returned_balls_scribbled"] += 1
+                except Exception:  # noqa: BLE001 - an immutable result is fine too
+                    pass
             if not np.array_equal(V, Vafter):
                 res["violations"].append(violation(
                     PROP, "query-changed-shape", "vertices differ after the query", si, cls=cls))
